@@ -27,7 +27,7 @@ type Row struct {
 
 type Finding struct {
 	Kind   string `json:"kind"`
-	S      string `json:"s"`  // Go-quoted original
+	S      string `json:"s"` // Go-quoted original
 	Got    string `json:"got"`
 	Class  string `json:"class"`
 	Detail string `json:"detail"`
